@@ -12,7 +12,7 @@ driver evaluates on every operand it is given.
 -/
 import SymVerif.Lemmas.C04MulN
 import SymVerif.Lemmas.C04MulSN
-import SymVerif.Lemmas.C04MaxMin
+import SymVerif.Lemmas.C04MaxMinT
 import SymVerif.Lemmas.C04Logic
 
 namespace SymVerif.C04
@@ -408,22 +408,68 @@ theorem maxMinE_perm (isMax : Bool) {l₁ l₂ : List Expr} (hp : l₁.Perm l₂
     (h : ∀ a ∈ l₁, mmOperandOK isMax a = true) : maxMinE isMax l₁ = maxMinE isMax l₂ :=
   maxMinE_perm_aux hp h
 
+theorem mmCanonOperand_iff {isMax : Bool} {a : Expr} :
+    mmCanonOperand isMax a = true ↔ (mmOperandOK isMax a = true ∧ maxMinE isMax [a] = .ok a) := by
+  unfold mmCanonOperand
+  simp only [Bool.and_eq_true]
+  constructor
+  · rintro ⟨h1, h2⟩
+    refine ⟨h1, ?_⟩
+    split at h2
+    · rename_i r hr
+      rw [hr, eqE_iff'.mp h2]
+    · cases h2
+  · rintro ⟨h1, h2⟩
+    refine ⟨h1, ?_⟩
+    rw [h2]
+    exact eqE_iff'.mpr rfl
+
+/-- every binary bracketing (with the binary `max({a, b})`) evaluates to the n-ary `max(vec)` on its
+leaves: nested results are flattened -/
+theorem maxMinTree_eq (isMax : Bool) (t : BTree) (h : ∀ a ∈ t.leaves, mmCanonOperand isMax a = true) :
+    evalT (mm2 isMax) t = maxMinE isMax t.leaves :=
+  evalT_mm_eq isMax t (fun a ha => mmCanonOperand_iff.mp (h a ha))
+
+/-- all bracketings of all permutations of the same operands of max / min agree -/
+theorem maxMinTree_perm (isMax : Bool) (t₁ t₂ : BTree) (hp : t₁.leaves.Perm t₂.leaves)
+    (h : ∀ a ∈ t₁.leaves, mmCanonOperand isMax a = true) :
+    evalT (mm2 isMax) t₁ = evalT (mm2 isMax) t₂ := by
+  have h2 : ∀ a ∈ t₂.leaves, mmCanonOperand isMax a = true := fun a ha => h a (hp.mem_iff.mpr ha)
+  rw [maxMinTree_eq isMax t₁ h, maxMinTree_eq isMax t₂ h2,
+    maxMinE_perm isMax hp (fun a ha => (mmCanonOperand_iff.mp (h a ha)).1)]
+
 /-- `logical_and` / `logical_or` (the `and_or` template of logic.cpp as modelled for C28) only depend
 on the multiset of the arguments -/
 theorem andOr_perm (isOr : Bool) {s₁ s₂ : List Logic.B} (hp : s₁.Perm s₂) :
     Logic.andOr isOr s₁ = Logic.andOr isOr s₂ :=
   C04L.andOr_perm_aux isOr hp
 
+/-- grouping for and / or: a nested call of the same connective is flattened,
+`and(and(s₁), s₂…) = and(s₁ ++ s₂)` (arguments well-formed in the sense of C28) -/
+theorem andOr_flatten (isOr : Bool) (s₁ s₂ : List Logic.B) (h : ∀ a ∈ s₁, C28.wf a = true) :
+    Logic.andOr isOr (Logic.andOr isOr s₁ :: s₂) = Logic.andOr isOr (s₁ ++ s₂) :=
+  C04L.andOr_flatten_aux isOr s₁ s₂ h
+
+/-- `and(and(a, b), c) = and(a, b, c)` -/
+theorem andOr_flatten2 (isOr : Bool) (a b c : Logic.B) (ha : C28.wf a = true) (hb : C28.wf b = true) :
+    Logic.andOr isOr [Logic.andOr isOr [a, b], c] = Logic.andOr isOr [a, b, c] :=
+  C04L.andOr_flatten2_aux isOr a b c ha hb
+
 section MaxMinExamples
 private def ax : Expr := .sym "x"
 private def ay : Expr := .sym "y"
 private def maxN : Expr := .app "Max" [.int 5, ay]
-example : [ax, .int 3, maxN, .rat 1 2].all (mmOperandOK true) = true := by decide
+example : [ax, .int 3, maxN, .rat 1 2].all (mmCanonOperand true) = true := by decide
+-- max(max(x, 3), max(Max(5, y), 1/2)) = max(x, 3, Max(5, y), 1/2)
+example : (evalT (mm2 true) (.node (.node (.leaf ax) (.leaf (.int 3))) (.node (.leaf maxN) (.leaf (.rat 1 2))))).toOption.map key
+    = (maxMinE true [ax, .int 3, maxN, .rat 1 2]).toOption.map key := by decide
 -- max(x, 3, Max(5, y), 1/2) = Max(5, x, y) in any order
 example : (maxMinE true [ax, .int 3, maxN, .rat 1 2]).toOption.map key
     = (maxMinE true [.rat 1 2, maxN, ax, .int 3]).toOption.map key := by decide
 example : (maxMinE true [ax, .int 3, maxN, .rat 1 2]).toOption.map key
     = some (key (.app "Max" (sortByKey [.int 5, ax, ay]))) := by decide
+example : Logic.andOr false [Logic.andOr false [.rel 0 false, .rel 1 true], .rel 2 false]
+    = Logic.andOr false [.rel 0 false, .rel 1 true, .rel 2 false] := by decide
 example : Logic.andOr false [.rel 0 false, .rel 1 true, .and [.rel 2 false, .rel 3 false]]
     = Logic.andOr false [.and [.rel 2 false, .rel 3 false], .rel 0 false, .rel 1 true] := by decide
 end MaxMinExamples
